@@ -99,8 +99,10 @@ is_assignable(CPPType *type) {
     return is_assignable(type->as_typedef_type()->_type);
 
   case CPPDeclaration::ST_array:
-    // The synthesized setter copies the elements, which takes a known bound.
-    return type->as_array_type()->_bounds != nullptr;
+    // The synthesized setter copies the elements, which takes a known bound
+    // and elements that can be assigned to.
+    return type->as_array_type()->_bounds != nullptr &&
+           !is_const(type->as_array_type()->_element_type);
 
   default:
     return true;
